@@ -301,6 +301,9 @@ def rule_dispatch_pairing(ctx):
 
 
 def run(ctx):
+    from . import protocol
+    protocol.rule_inverse_reads_source(ctx, 'R12.8')     # inverse maps do not read an output mass before storing it
+    protocol.rule_active_bound(ctx, 'R02.12')
     from . import edges
     edges.rule_variational_call_args(ctx, 'R16.12')  # variational sets: same map as the real particles
     edges.rule_dh_pair_extents(ctx, 'R12.7')         # forward and inverse democratic heliocentric maps sum over the same bodies
